@@ -42,7 +42,7 @@ AdjOf(d, id)    == {k \in AdjFields(d) : id \in {x.id : x \in AdjLeaves(d.named[
 NoOpen == [k |-> 0, p |-> 0, filled |-> <<>>, words |-> <<>>]
 GInitSt(d) == [acc |-> [i \in {x.id : x \in GLeaves(d)} |-> <<>>], pos |-> <<>>,
                blocks |-> [k \in AdjFields(d) |-> <<>>], open |-> NoOpen, pending |-> "",
-               posOnly |-> FALSE, dead |-> "", help |-> FALSE, n |-> 0, recent |-> 0, cut |-> 0, hp |-> <<>>]
+               posOnly |-> FALSE, dead |-> "", help |-> FALSE, n |-> 0, recent |-> 0, cut |-> 0, hp |-> <<>>, win |-> 0]
 
 GKill(gs, why) == [gs EXCEPT !.dead = IF @ = "" THEN why ELSE @]
 FilledIds(gs)  == {gs.open.filled[i].id : i \in DOMAIN gs.open.filled}
@@ -161,6 +161,13 @@ GStep(d, gs0, e) ==
       was == IF was1 # 0 THEN was1 ELSE r.cut
       asked == r.help /\ ~gs0.help IN
   [r EXCEPT !.recent = IF asked THEN 0 ELSE kc,
+            \* the window of an adjacent subcommand: the items after its name up to the first one the level had already
+            \* claimed when the command was looked for (an option declared before it); words and later-declared items
+            \* typed after the block are still inside it as far as completion is concerned
+            !.win = IF kc # 0 THEN kc
+                    ELSE IF gs0.win # 0 /\ e.t \in {"name", "eq", "glued"} /\
+                            \E j \in 1..(gs0.win - 1) : IsLeaf(d.named[j]) /\ e.s \in NamesOf(d.named[j]) THEN 0
+                    ELSE gs0.win,
             !.hp = IF asked /\ was # 0 /\ ~gs0.posOnly THEN <<d.named[was].head.names[1]>> ELSE @]
 
 RECURSIVE GRun(_, _, _)
@@ -416,7 +423,7 @@ GMayOffer(d, gs, p) ==
 \* lower bound for a fresh prefix: visible names of plain items not given yet, and of the members of a choice
 \* none of whose branches has been given (items of adjacent groups are outside the property's lower bound)
 GMustOffer(d, gs, p) ==
-  IF gs.pending # "" \/ gs.posOnly \/ (gs.open.k # 0 /\ (~Complete(d, gs) \/ d.named[gs.open.k].head.kind = "cmd")) \/ p.k \notin {"fresh", "dash", "long"} THEN {}
+  IF gs.pending # "" \/ gs.posOnly \/ gs.win # 0 \/ (gs.open.k # 0 /\ (~Complete(d, gs) \/ d.named[gs.open.k].head.kind = "cmd")) \/ p.k \notin {"fresh", "dash", "long"} THEN {}
   ELSE UNION {LET f == d.named[k] IN
               IF IsLeaf(f)
               THEN (IF ~f.hidden /\ NameMatches(f, p) /\ ~(SingleUse(f) /\ gs.acc[f.id] # <<>>) THEN {Pref(f)} ELSE {})
